@@ -102,6 +102,21 @@ def gen_cases(ctx, ngroups):
             # the same FILE object first on a regular file, then reopened on a FIFO: both passes must present the same members
             out.append(Case("rdrreopen %s %s %s" % (pol, ";".join(toks), d.hex()), tags={"reopen", "c-only"}, judge=judge_reopen, note=("reopen", 10 ** 6 + gid, 0)))
         gid += 1
+    # a member whose data is 2 GiB and more, SKIPPED on a seekable FILE (a sparse file: header, a hole, the later members): the seek
+    # offset is a long, not a 32-bit int – the later members are the same as from any other kind of source / read on their own
+    from vlib import lhaenc as E2
+    for g, gap in enumerate([0x7fffffff, 0x80000000, 0x80000000 + 4096, 0xfffffff0][: (3 if ctx.tier == "quick" else 4)]):
+        f1 = E2.Fields(level=r.choice([0, 1]), method=b"-lh0-", clen=gap, length=gap, crc=0, name=b"big.bin", os_type=0x4d)
+        h1 = E2.encode(f1)
+        rest = b""
+        for nm in (b"b.txt", b"c.txt"):
+            dd = S.rand_bytes(r, r.choice([5, 40]))
+            rest += E2.encode(E2.Fields(level=1, method=b"-lh0-", clen=len(dd), length=len(dd), crc=E2.crc16(dd), name=nm, os_type=0x4d)) + dd
+        rest += b"\0"
+        pol = r.choice(A.POLICIES)
+        out.append(Case("rdr seek %s -1 n;n;n %s" % (pol, rest.hex()), tags={"big-ref", "kind=seek"}, note=("bigref", 500000 + g, 0)))
+        out.append(Case("rdrbig %s %d n;n;n;n %s %s" % (pol, gap, h1.hex(), rest.hex()), tags={"big-member-skipped", "c-only", "gap=%x" % gap},
+                        note=("big", 500000 + g, 0)))
     return out
 
 
@@ -132,6 +147,19 @@ def judge_groups(cases, c_outs):
                 w = judge_reopen(c_outs[i])
                 if w:
                     why[i] = w
+        bigref = [i for i in idxs if cases[i].note[0] == "bigref"]
+        if bigref and not c_outs[bigref[0]].startswith(("CRASH", "TIMEOUT")):
+            want = body(c_outs[bigref[0]]).split(";")
+            for i in idxs:
+                if cases[i].note[0] != "big":
+                    continue
+                if c_outs[i].startswith(("CRASH", "TIMEOUT")):
+                    why[i] = "implementation crashed / hung on a member with a multi-gigabyte declared size: " + c_outs[i][:120]
+                    continue
+                got = body(c_outs[i]).split(";")
+                if got[1:1 + len(want)] != want[:len(got) - 1]:
+                    why[i] = ("after a member of %s bytes was skipped on a seekable FILE the later members are %s; from their own bytes (and "
+                              "from every non-seekable source) they are %s" % (cases[i].op.split()[2], [h[:40] for h in got[1:]], [h[:40] for h in want]))
         ref = [i for i in idxs if cases[i].note[0] == "ref"]
         if not ref:
             continue
